@@ -1,3 +1,65 @@
-"""Supporting static facts (not contract proofs; listed separately in evidence). Filled per property."""
+"""Supporting static facts (not contract proofs; listed separately in evidence).
+
+C20: exhaustive list of writable objects with static storage duration in the objects built from /repo's current tree
+(nm on every object file of the sqfvm target), compared with contracts/statics_classified.json.  A symbol that matches
+no entry is an unclassified process-wide mutable object: every instance in the process shares it.
+"""
+import os, re, json, subprocess, shutil, atexit, glob
+
+ROOT = os.path.dirname(os.path.dirname(os.path.abspath(__file__)))
+_build = {}
+
+def scratch_build(target='sqfvm'):
+    """configure + build <target> from /repo's current tree in a scratch directory outside /repo and /verif"""
+    if target in _build: return _build[target]
+    d = '/var/tmp/sqfvm-verif-objs-%d' % os.getpid()
+    if not os.path.isdir(d):
+        atexit.register(lambda: shutil.rmtree(d, ignore_errors=True))
+    p = subprocess.run('cmake -G Ninja -S /repo -B %s -DCMAKE_BUILD_TYPE=RelWithDebInfo >/dev/null 2>&1 && cmake --build %s --target %s -j16 2>&1 | tail -5' % (d, d, target),
+                       shell=True, capture_output=True, timeout=2400)
+    ok = p.returncode == 0 and (os.path.exists(os.path.join(d, 'sqfvm')) or os.path.exists(os.path.join(d, 'libsqfvm.so')))
+    _build[target] = (d if ok else None, p.stdout.decode('utf-8', 'replace')[-1500:])
+    return _build[target]
+
+IGNORE = re.compile(r"^(guard variable for |vtable for |VTT for |typeinfo |construction vtable|DW\.ref\.|\.L|__dso_handle|_GLOBAL_|__TMC_END__|completed\.|dtor_idx|object\.)")
+
+def scan_statics():
+    d, log = scratch_build('sqfvm')
+    if d is None:
+        return None, 'build failed: ' + log
+    objs = glob.glob(os.path.join(d, 'CMakeFiles', 'sqfvm.dir', '**', '*.o'), recursive=True)
+    syms = {}
+    for o in objs:
+        p = subprocess.run(['nm', '-C', '--defined-only', o], capture_output=True)
+        for line in p.stdout.decode('utf-8', 'replace').split('\n'):
+            m = re.match(r"^[0-9a-f]+ ([bBdDuU]) (.+)$", line)
+            if not m: continue
+            name = m.group(2)
+            if IGNORE.match(name): continue
+            syms.setdefault(name, set()).add(os.path.relpath(o, os.path.join(d, 'CMakeFiles', 'sqfvm.dir')))
+    return syms, '%d object files' % len(objs)
+
 def run(pid, tier, workroot):
-    return []
+    if pid != 'C20': return []
+    facts = []
+    cl = json.load(open(os.path.join(ROOT, 'contracts', 'statics_classified.json')))['entries']
+    syms, info = scan_statics()
+    if syms is None:
+        return [{'name': 'statics.scan', 'status': 'undecided', 'detail': info}]
+    unclassified = []; by_class = {}; findings = {}
+    for name, objs in sorted(syms.items()):
+        hit = None
+        for e in cl:
+            if re.search(e['pattern'], name): hit = e; break
+        if hit is None:
+            unclassified.append({'symbol': name, 'objects': sorted(objs)[:3]})
+        else:
+            by_class.setdefault(hit['class'], []).append(name)
+            if hit['class'] == 'finding': findings.setdefault(hit['finding'], []).append(name)
+    facts.append({'name': 'statics.scan', 'status': 'pass', 'detail': '%s, %d writable static symbols: %s' % (info, len(syms), {k: len(v) for k, v in by_class.items()})})
+    for u in unclassified:
+        facts.append({'name': 'statics.unclassified:' + u['symbol'], 'status': 'fail',
+                      'detail': 'writable object with static storage duration that is not on the classified list (shared by every VM instance of the process): %s in %s' % (u['symbol'], ', '.join(u['objects']))})
+    for fid, names in findings.items():
+        facts.append({'name': 'statics.finding:' + fid, 'status': 'fail', 'detail': 'process-wide mutable state: ' + ', '.join(names)})
+    return facts
